@@ -267,7 +267,8 @@ func runC11(c *core.Ctx) {
 		label string
 	}
 	var cases []cli
-	cmds := [][]string{{"csv", "database-resolved"}, {"reg"}, {"bal"}, {"report", "element-total", "x"}, {"report", "totals"}, {"summary", "2021/01/24"}}
+	cmds := [][]string{{"csv", "database-resolved"}, {"reg"}, {"bal"}, {"report", "element-total", "x"}, {"report", "totals"}, {"summary", "2021/01/24"},
+		{"report", "element-total", "r01"}, {"report", "element-total", "c01"}, {"report", "unresolved"}, {"bal", "-s", "x"}, {"reg", "-s", "x"}}
 	r := c.Rng("cli", 0)
 	for n := 1; n <= 6; n++ {
 		for l := n - 1; l <= n+1; l++ {
@@ -335,7 +336,11 @@ func runC11(c *core.Ctx) {
 		}
 		wantErr := cyc || chain >= t.n
 		seen := map[string]bool{}
+		baseArgs := append([]string{}, args[:len(args)-len(t.cmd)]...)
 		for k := 0; k < procs; k++ {
+			// the case's own command first, then the others in rotation: every resolving command sees every case class
+			t.cmd = cmds[(i+k)%len(cmds)]
+			args = append(append([]string{}, baseArgs...), t.cmd...)
 			res := run.Exec(c.HR, args, run.ExecOpts{Dir: dir, Env: env, Timeout: 120 * time.Second})
 			c.Eval(1)
 			c.Count("cli_fresh_processes", 1)
@@ -369,7 +374,7 @@ func runC11(c *core.Ctx) {
 		}
 		c.Nontrivial("cli", t.label, files["food.yaml"])
 		if len(seen) > 1 {
-			c.Violation(strings.Join(t.cmd, " ")+"|verdict-varies", t.label+": both success and failure in fresh processes", caseDoc{Files: files, Args: args, Env: env, Note: t.label})
+			c.Violation("cli|verdict-varies", t.label+": both success and failure across fresh processes and resolving commands", caseDoc{Files: files, Args: args, Env: env, Note: t.label})
 		}
 		if i == 5 {
 			c.Sample(map[string]any{"part": "cli", "case": t.label, "args": joinArgs(args), "env": env, "food.yaml": files["food.yaml"], "verdicts_seen": sortedKeys(seen)})
